@@ -51,7 +51,10 @@ RULE = ("scenario = table t (INTEGER PRIMARY KEY id + 2-4 INTEGER/TEXT columns, 
         "a 45-character name that is truncated, a left-over temporary table) + seeded random ones; every scenario is crossed with "
         "8 transaction settings (pysqlite x {own scope, caller rollback, caller commit} x {no open transaction, DML before}, transactional DDL x "
         "{own, rollback, commit}) and with EVERY single fault position 0..n+1 of the statement sequence (n = 4 + number of indexes), no fault, "
-        "and the double faults that also hit the handler's DROP. non-trivial = the batch raised and the table had rows; distinct by encoded input. "
+        "and the double faults that also hit the handler's DROP; each injected fault raises either an Exception subclass or a BaseException that "
+        "is not an Exception (subclasses of KeyboardInterrupt / SystemExit / asyncio.CancelledError), and the context is configured with "
+        "transactional_ddl unset / True / False: these two dimensions are fully crossed on the first hand-written scenario(s) and rotated "
+        "through all 12 combinations over consecutive cases elsewhere. non-trivial = the batch raised and the table had rows; distinct by encoded input. "
         "exhaustive over fault positions and transaction settings per scenario, not over scenarios")
 EXHAUSTIVE = {"quick": False, "thorough": False}
 CASE_TIMEOUT = 60
